@@ -1060,7 +1060,17 @@ pub struct FormatTotals {
     pub max_req: u64,
     pub slow: Vec<Value>,
     pub confirmed_hangs: BTreeSet<String>,
+    /// hang violations recorded for this format in this worker process (see the cut-offs in `run_batch`)
+    pub hang_violations: u32,
 }
+
+/// A tree in which a reader loops forever makes *every* mutant that reaches the loop cost the hard budget plus a stack
+/// dump. Once the verdict is established the remaining mutants add nothing but hours: a batch ends after this many hang
+/// violations of its own, ...
+const HANGS_PER_BATCH: u32 = 3;
+/// ... and after this many in the worker process the format's later batches are not started (reported as inconclusive
+/// `stopped-after-confirmed-hangs`, next to the violations, never instead of them). No hang violation, no cut-off.
+const HANGS_PER_PROCESS: u32 = 9;
 
 enum SliceEnd {
     Finished,
@@ -1279,7 +1289,18 @@ pub fn run_batch(c: &mut Case, fmt: &FormatDef, seed: &Seed, muts: &[(usize, &Mu
     let fam = fmt.family;
     let mut pos = 0usize;
     let mut restarts = 0u32;
+    let mut batch_hangs = 0u32;
+    if totals.hang_violations >= HANGS_PER_PROCESS {
+        c.count(&format!("{f}|mutants_not_run_after_hang_storm"), muts.len() as u64);
+        c.inconclusive("stopped-after-confirmed-hangs");
+        return;
+    }
     while pos < muts.len() {
+        if batch_hangs >= HANGS_PER_BATCH || totals.hang_violations >= HANGS_PER_PROCESS {
+            c.count(&format!("{f}|mutants_not_run_after_hang_storm"), (muts.len() - pos) as u64);
+            c.note(json!({"stopped_after_confirmed_hangs": {"batch_hangs": batch_hangs, "process_hangs": totals.hang_violations, "mutants_not_run": muts.len() - pos}}));
+            break;
+        }
         let so = run_slice(fmt, seed, &muts[pos..], verif_seed, c.idx, shm, scratch, HARD_BUDGET);
         let mut big: Option<(String, u64)> = None;
         for m in &so.msgs {
@@ -1355,6 +1376,8 @@ pub fn run_batch(c: &mut Case, fmt: &FormatDef, seed: &Seed, muts: &[(usize, &Mu
                 if totals.confirmed_hangs.contains(&sig) {
                     // the same loop at the same site has already been confirmed with the 4x budget in this process
                     c.count(&format!("{f}|outcome|hang"), 1);
+                    batch_hangs += 1;
+                    totals.hang_violations += 1;
                     c.violate(sig, format!("{ename} did not return within {} s at {site} (site already confirmed as non-terminating in this run)", HARD_BUDGET.as_secs()),
                               json!({"format": f, "entry": ename, "seed": seed.label, "mutation": mdesc, "case": c.idx, "mutant": k, "reconfirmed": false}));
                 } else {
@@ -1364,6 +1387,8 @@ pub fn run_batch(c: &mut Case, fmt: &FormatDef, seed: &Seed, muts: &[(usize, &Mu
                         SliceEnd::Hung { site: site2, .. } => {
                             let sig = sig_hang(fam, ename, &site2);
                             c.count(&format!("{f}|outcome|hang"), 1);
+                            batch_hangs += 1;
+                            totals.hang_violations += 1;
                             totals.confirmed_hangs.insert(sig.clone());
                             c.violate(sig, format!("{ename} did not return within {} s at {site2} (confirmed alone with a 4x budget)", HARD_BUDGET.as_secs() * 4),
                                       json!({"format": f, "entry": ename, "seed": seed.label, "mutation": mdesc, "case": c.idx, "mutant": k, "reconfirmed": true}));
